@@ -173,6 +173,7 @@ struct Runner {
           fail("measure:mingap", {{"L", L}, {"want", want}, {"got", g1}, {"gotReversed", g2}, {"seed", seed}});
       }
     }
+    const double tol = std::max({R.GetTolerance(), P.GetTolerance(), Q.GetTolerance(), 1e-9}) * 4 + 1e-9;
     Box bb = P.BoundingBox().Union(Q.BoundingBox());
     std::uniform_real_distribution<double> X(bb.min.x - 0.2, bb.max.x + 0.2), Y(bb.min.y - 0.2, bb.max.y + 0.2), Z(bb.min.z - 0.2, bb.max.z + 0.2);
     const auto& tt = c["tt"];
